@@ -964,6 +964,41 @@ async fn check_order(
         if nulls_low.is_none() && ok_low != ok_high {
             *nulls_low = Some(ok_low);
         }
+        // the sort key need not be in the select list: with distinct, non-NULL keys the sequence
+        // of any other column is determined by the ordered result above
+        if q.group_by.is_none() && keys.len() == 1 && def.cols.len() > 1 {
+            let ks = key_proj(&orow, &keys);
+            let strict = ks.windows(2).all(|w| w[0] != w[1]) && ks.iter().all(|r| !r[0].is_null());
+            if strict && !ks.is_empty() {
+                let ki = keys[0].0;
+                let vi = (ki + 1 + at % (def.cols.len() - 1)) % def.cols.len();
+                let mut hidden = ordered.clone();
+                hidden.cols = vec![def.cols[vi].name.clone()];
+                let h = db.exec(&hidden.sql()).await;
+                cx.stats.evaluations += 1;
+                match h.rows() {
+                    Some(hrow) => {
+                        let want: Vec<Row> = orow.iter().map(|r| vec![r[vi].clone()]).collect();
+                        if *hrow != want {
+                            cx.violate(Violation::new(
+                                "C12",
+                                "order-by-unselected-key-wrong",
+                                Some(at),
+                                format!(
+                                    "{}: [{}], but in key order the column reads [{}]",
+                                    hidden.sql(),
+                                    rows_brief(hrow, 16),
+                                    rows_brief(&want, 16)
+                                ),
+                            ));
+                            return;
+                        }
+                        cx.probe("order-by-unselected-key-checked");
+                    }
+                    None => cx.probe("order-by-unselected-key-query-failed"),
+                }
+            }
+        }
         if q.limit.is_some() || q.offset.is_some() {
             let l = db.exec(&full.sql()).await;
             cx.stats.evaluations += 1;
